@@ -26,14 +26,26 @@ LEVEL_TEXT = ("Lean theorems over Model/Builder.lean (from_callable, from_entryp
               "gets accepted satisfies C16's Job.WF and UniqueInputs (c19_accepted_presched_wf_run) - acyclicity is NOT established by build "
               "(c19_accepted_may_be_cyclic); a description with an input fed twice is never accepted; for tasks whose declared types are absent, "
               "nameless (None, unions) or evaluable builtin classes build returns a job or a non-empty problem list, never an exception, for every "
-              "program of builder calls; with_values binds args[i] under position i and the last k=v under k, overriding earlier bindings and defaults "
+              "program of builder calls (c19_never_crashes_run; its hypothesis OpKnown excludes every program that creates a task with a declared type "
+              "name outside the type universe - typing.Optional[...] -> 'Optional', user classes, 'grib.mir' - even when no edge or value touches that "
+              "name: for those it says nothing; c19_crash_iff_item_needs_unknown_type says for EVERY builder exactly when build raises: iff a keyword "
+              "static is bound to a parameter whose declared type is such a name, or a keyword edge with both ends present joins two declared types "
+              "that are not trivially compatible and one of them is such a name - an untouched non-builtin annotation never makes build raise and the "
+              "rest of the description is still judged - and c19_every_verdict_run lifts it to every program of builder calls, without hypothesis on the "
+              "annotations: every build result in the store is build's verdict on a builder the program made, an exception exactly when that builder "
+              "has such an item, else a job or a problem list); the input schema from_callable records has an entry for k iff k names a positional-or-keyword "
+              "or keyword-only parameter, whatever the name - self, cls, args (c19_schema_is_exactly_the_keyword_parameters); with_values binds args[i] under position i and the last k=v under k, overriding earlier bindings and defaults "
               "only there. Unbounded in the number of tasks, parameters, values, edges and calls. The clause 'building never mutates previously built "
               "jobs' is NOT carried by a theorem (the model has values, not references: c19_persistent only says that the model's store is "
               "append-only): it is carried by the correspondence check, which after every call re-reads every earlier real object (complete pydantic "
               "model_dump fingerprints, incl. definition.func / environment / entrypoint / needs_gpu) and compares it with that store.")
 LEVEL_NOTE = ("modelled, not verified: builders.py TaskBuilder.from_callable/from_entrypoint/with_values, JobBuilder.with_node/with_edge/build; "
               "inspect.signature, pydantic validation/model_copy, pyrsistent and cloudpickle are exercised by the real calls but trusted. The type universe "
-              "is a parameter of the model (evaluable names + subclass relation); the driver instantiates it with the builtin classes. static_input_ps "
+              "is a parameter of the model (evaluable names + subclass relation); the driver instantiates it with 14 builtin classes (int str float bool list "
+              "tuple dict bytes complex object set frozenset bytearray range; only bool < int and everything < object) - names that builders.py's "
+              "namespace happens to resolve otherwise (Callable, Iterable, Type, exception classes, ...) are not generated. Parameter names are "
+              "arbitrary strings in the model (self, cls, args are ordinary names: c19_from_callable quantifies over every name). A callable without "
+              "an inspectable signature is answered by the driver with a constant (ValueError), no theorem. static_input_ps "
               "keys are positions (Nat) in the model, str(position) in the code (formatted in the driver). Annotations naming something that is not a "
               "builtin class (user classes, typing.Optional[...] whose __name__ is 'Optional') are outside the quantifier: build raises NameError for "
               "them (counted, exempt). Node iteration order of pyrsistent.PMap is abstracted (static-type problems compared as a set). Aliasing between "
@@ -42,16 +54,23 @@ TECHNIQUE = ("Lean 4 proof (case analysis of get_edge_errors, induction over dic
              "hypotheses of the C16 model) + differential correspondence with the real builders + independent oracle (accept iff well formed)")
 LEAN_PROPS = ["EkwVerif.Props.C19"]
 LEAN_DRIVERS = ["C19"]
-RULE = ("random builder programs of 6-22 calls over an object store: from_callable on generated callables of the forms def / lambda / bound method / "
-        "classmethod / staticmethod / functools.partial (positional and keyword-bound) / class / C builtin, with an effective signature computed by the "
-        "generator and cross-checked with inspect (positional-only, positional-or-keyword, *args, keyword-only, **kw; defaults; annotations: absent, "
-        "builtin class, string, nameless objects (None, int | None), generic aliases, typing constructs, a few non-evaluable names), environment "
-        "omitted / empty / given; from_entrypoint; with_values with 0-7 positional and 0-2 keyword values; with_node (incl. re-binding a name, names "
-        "with dots, the empty name); with_edge with `frum` omitted or given, existing and dangling ends, positional (also negative) and keyword inputs, "
-        "type-compatible and incompatible, and inputs that an earlier edge of the builder already feeds; build on any earlier builder. non-trivial = "
-        "program with an accepted job having >= 1 edge or a problem list with an edge problem; distinct by content hash")
+RULE = ("random builder programs of 6-22 calls over an object store: from_callable on generated callables of the forms def / async def / lambda / "
+        "bound method / unbound method C.f (receiver = ordinary first parameter) / classmethod / staticmethod / functools.partial (positional and "
+        "keyword-bound) / class / instance with __call__ / functools.wraps-decorated wrapper (__wrapped__) / C builtin incl. bound C methods and "
+        "open (8 parameters) / C callables for which inspect has no signature (ValueError expected, outside the quantifier), 0-4 parameters (15%: "
+        "5-8), names from a b c d x y and (one third) self cls args kwargs _ _a __p (mangled to _C__p in class bodies) match case type print frum "
+        "into node kw rest, non-ASCII identifiers; "
+        "*args/**kwargs named args/kwargs unless taken; effective signature computed by the generator and cross-checked with inspect (positional-only, "
+        "positional-or-keyword, *args, keyword-only, **kw; defaults; annotations: absent, builtin class (int str float bool list tuple dict bytes object, "
+        "a quarter: set frozenset complex bytearray range), string, nameless objects (None, int | None), generic aliases (list[int], set[int], ...), "
+        "typing constructs (Optional, Union, List, Set, Dict, Tuple, Any), a few non-evaluable names), values of 14 classes, environment omitted / empty / "
+        "given; from_entrypoint; with_values with 0-7 positional and 0-2 keyword values (also the keywords self / args); with_node (incl. re-binding a "
+        "name, names with dots, the empty name); with_edge with `frum` omitted or given, existing and dangling ends, positional (also negative) and "
+        "keyword inputs (also into self / cls), type-compatible and incompatible, and inputs that an earlier edge of the builder already feeds; build on "
+        "any earlier builder. non-trivial = program with an accepted job having >= 1 edge or a problem list with an edge problem; distinct by content hash")
 ASSUMPTIONS = [
-    "annotations are builtin classes, absent, strings naming them, or objects without __name__ (the property's quantifier); non-evaluable names exercise the NameError branch and are exempt from the crash oracle",
+    "annotations are builtin classes, absent, strings naming them, or objects without __name__ (the property's quantifier); a declared type that is no builtin class exempts exactly the items that need it - a keyword static bound to such a parameter, a keyword edge whose two declared types differ and one of them is such a name (NameError from build allowed only then) - every other static and edge of the same description is judged by the accept-iff oracle, and a description in which no item needs the name is judged in full (counted: oracle:build-*)",
+    "a callable for which inspect.signature raises (C callables without text signature) has no signature to quantify over: from_callable must refuse it with inspect's ValueError (checked), nothing else is demanded",
     "values are compared by (class name, repr)",
     "node iteration order of pyrsistent.PMap is not part of the property: problem lists are compared with the static-input part sorted",
     "oracle reading of 'otherwise it returns the list of problems': build accepts IF AND ONLY IF the description is well formed (for builtin/absent types), and every reported problem is one the description has",
@@ -59,21 +78,41 @@ ASSUMPTIONS = [
 ]
 
 BUILTIN_TYS = ["int", "str", "float", "bool", "list", "tuple", "dict", "bytes", "object"]
+MORE_TYS = ["set", "frozenset", "complex", "bytearray", "range"]          # builtin classes beyond the first nine (audit D, C19 5(b))
+ALL_TYS = BUILTIN_TYS * 3 + MORE_TYS                                       # weights: the common ones three times as often
 EXOTIC_TYS = ["grib.mir", "grib.earthkit", "latitude", "Foo"]
 # annotation OBJECTS that are neither classes nor strings: (source, how, what `__name__` gives)
 NAMELESS_ANNS = ["None", "int | None", "str | int", "None | float"]                      # no __name__ at all
-GENERIC_ANNS = [("list[int]", "list"), ("dict[str, int]", "dict"), ("tuple[int, ...]", "tuple")]   # __name__ of the origin class
-TYPING_ANNS = [("Optional[int]", "Optional"), ("Union[int, str]", "Union"), ("List[int]", "List")]  # names that are no classes
+GENERIC_ANNS = [("list[int]", "list"), ("dict[str, int]", "dict"), ("tuple[int, ...]", "tuple"),   # __name__ of the origin class
+                ("set[int]", "set"), ("frozenset[str]", "frozenset"), ("list[set[int]]", "list")]
+TYPING_ANNS = [("Optional[int]", "Optional"), ("Union[int, str]", "Union"), ("List[int]", "List"),  # names that are no classes
+               ("Set[int]", "Set"), ("Dict[str, int]", "Dict"), ("Tuple[int, ...]", "Tuple"),
+               ("Any", "Any")]                                                                       # typing.Any.__name__ == 'Any': unvalidated
+_VAL_NS = {"__builtins__": {}, "set": set, "frozenset": frozenset, "bytearray": bytearray, "range": range}
 VALUE_POOL = ["7", "0", "-3", "'xy'", "'ab'", "'q'", "''", "'hello'", "('x', 1)", "(1, 2)", "('a', 'b')", "[1, 2]", "['k', 'v']",
               "None", "True", "1.5", "b'ab'", "{'a': 1}"]
+MORE_VALUES = ["{1, 2}", "set()", "frozenset({1})", "1j", "bytearray(b'a')", "range(0, 3)"]
 BY_TYPE = {}
-for _r in VALUE_POOL:
-    BY_TYPE.setdefault(type(eval(_r)).__name__, []).append(_r)
+for _r in VALUE_POOL + MORE_VALUES:
+    BY_TYPE.setdefault(type(eval(_r, dict(_VAL_NS), {})).__name__, []).append(_r)
+ALL_VALUES = VALUE_POOL * 3 + MORE_VALUES
 NAMES = ["s", "k", "m", "n", "a.b", "s.0", ""]
 NAME_WEIGHTS = [6, 6, 5, 5, 2, 1, 1]
 PARAMS = ["a", "b", "c", "d", "x", "y"]
+# parameter names a contributor's special-casing could single out (audit D, C19 5(a)): the conventional receiver names,
+# the conventional names of *args / **kwargs used for ordinary parameters, soft keywords, builtin names, underscores,
+# non-ASCII identifiers (NFKC-stable), names that look like the builder's own (`frum`, `into`, `0`-like is impossible)
+NEAR_TYS = {"bytes": "bytearray", "bytearray": "bytes", "bool": "int", "int": "bool", "set": "frozenset", "frozenset": "set", "float": "int",
+            "complex": "float", "list": "tuple", "tuple": "list", "range": "list", "str": "bytes", "dict": "object", "object": "int"}
+SPECIAL_PARAMS = ["self", "cls", "args", "kwargs", "_", "_a", "match", "case", "type", "print", "frum", "into", "node",
+                  "\u00e4", "\u03c0", "\u540d", "self_", "mcs", "this", "kw", "rest", "__p"]
+# forms whose parameter list is written inside a class body: a name `__p` is MANGLED there (inspect reports `_C__p`)
+CLASS_BODY_FORMS = ("method", "unbound", "classmethod", "staticmethod", "class", "instance")
 ENVS = [None, None, None, [], ["numpy"], ["numpy", "xarray>=2024"]]
-FORMS = ["def"] * 10 + ["lambda", "method", "classmethod", "staticmethod", "partial", "partial", "class", "builtin"]
+FORMS = (["def"] * 10 + ["lambda", "method", "classmethod", "staticmethod", "partial", "partial", "class", "builtin"]
+         + ["unbound", "unbound", "instance", "wrapped", "async", "nosig"])
+# C callables without an introspectable signature (inspect.signature raises ValueError)
+NOSIG_CALLABLES = ["int", "dict", "range", "min", "max", "getattr", "str", "set", "zip"]
 
 # C builtins: (expression, effective signature as (name, kind, default-repr|None)); checked against inspect.signature at import
 BUILTIN_CALLABLES = {
@@ -86,16 +125,25 @@ BUILTIN_CALLABLES = {
     "print": ("print", [("args", "varPos", None), ("sep", "kwOnly", "' '"), ("end", "kwOnly", "'\\n'"), ("file", "kwOnly", "None"), ("flush", "kwOnly", "False")]),
     "dict.get": ("dict.get", [("self", "posOnly", None), ("key", "posOnly", None), ("default", "posOnly", "None")]),
     "str.upper": ("str.upper", [("self", "posOnly", None)]),
+    # more than four parameters; bound C methods
+    "open": ("open", [("file", "posOrKw", None), ("mode", "posOrKw", "'r'"), ("buffering", "posOrKw", "-1"), ("encoding", "posOrKw", "None"),
+                      ("errors", "posOrKw", "None"), ("newline", "posOrKw", "None"), ("closefd", "posOrKw", "True"), ("opener", "posOrKw", "None")]),
+    "compile": ("compile", [("source", "posOrKw", None), ("filename", "posOrKw", None), ("mode", "posOrKw", None), ("flags", "posOrKw", "0"),
+                            ("dont_inherit", "posOrKw", "False"), ("optimize", "posOrKw", "-1"), ("_feature_version", "kwOnly", "-1")]),
+    "complex": ("complex", [("real", "posOrKw", "0"), ("imag", "posOrKw", "0")]),
+    "enumerate": ("enumerate", [("iterable", "posOrKw", None), ("start", "posOrKw", "0")]),
+    "[].append": ("[].append", [("object", "posOnly", None)]),
+    "'a'.upper": ("'a'.upper", []),
 }
 
 
 def mkval(r):
-    v = eval(r, {"__builtins__": {}}, {})
+    v = eval(r, dict(_VAL_NS), {})
     return {"ty": type(v).__name__, "r": repr(v)}
 
 
 def pyval(v):
-    return eval(v["r"], {"__builtins__": {}}, {})
+    return eval(v["r"], dict(_VAL_NS), {})
 
 
 # ----------------------------------------------------------------------------- generator
@@ -106,10 +154,10 @@ def gen_ann(rng, plain_only=False):
     if x < 0.34 or plain_only:
         return None, "absent", None
     if x < 0.74:
-        t = rng.choice(BUILTIN_TYS)
+        t = rng.choice(ALL_TYS)
         return t, "class", t
     if x < 0.80:
-        t = rng.choice(BUILTIN_TYS)
+        t = rng.choice(ALL_TYS)
         return t, "string", repr(t)
     if x < 0.88:
         return None, "nameless", rng.choice(NAMELESS_ANNS)
@@ -126,7 +174,22 @@ def gen_ann(rng, plain_only=False):
 def gen_default(rng, ann):
     if ann in BY_TYPE and rng.random() < 0.7:
         return mkval(rng.choice(BY_TYPE[ann]))
-    return mkval(rng.choice(VALUE_POOL))
+    return mkval(rng.choice(ALL_VALUES))
+
+
+def _blank(name, kind):
+    return {"name": name, "kind": kind, "ann": None, "how": "absent", "src": None, "dflt": None}
+
+
+def gen_names(rng, n):
+    """n distinct parameter names: the six plain ones, and (each with probability ~1/3) names that special-casing could
+    single out: self / cls / args / kwargs / soft keywords / builtin names / underscores / non-ASCII identifiers."""
+    out = []
+    while len(out) < n:
+        nm = rng.choice(SPECIAL_PARAMS) if rng.random() < 0.34 else rng.choice(PARAMS)
+        if nm not in out:
+            out.append(nm)
+    return out
 
 
 def gen_sig(rng):
@@ -137,9 +200,17 @@ def gen_sig(rng):
         params = [{"name": n, "kind": k, "ann": None, "how": "absent", "src": None, "dflt": (mkval(d) if d is not None else None)}
                   for n, k, d in BUILTIN_CALLABLES[name][1]]
         return {"op": "task", "form": "builtin", "builtin": name, "params": params, "ret": None, "rhow": "absent", "rsrc": None, "env": env}
+    if form == "nosig":
+        # a C callable for which inspect has no signature: from_callable cannot describe it (ValueError); outside the
+        # property's quantifier ("any signature"), counted and compared with the driver's constant answer
+        return {"op": "task", "form": "nosig", "builtin": rng.choice(NOSIG_CALLABLES), "params": [], "ret": None, "rhow": "absent",
+                "rsrc": None, "env": env}
     plain = form == "lambda"
-    names = rng.sample(PARAMS, rng.randint(0, 4))
-    n = len(names)
+    n = rng.randint(0, 4) if rng.random() < 0.85 else rng.randint(5, 8)
+    names = gen_names(rng, n)
+    if form == "unbound" and "self" not in names:
+        names = ["self"] + names[:7]                                 # `C.f`: the receiver is an ordinary first parameter
+        n = len(names)
     cut1 = rng.randint(0, n) if rng.random() < 0.25 else 0          # positional-only prefix
     cut2 = rng.randint(cut1, n)                                      # positional-or-keyword
     params = []
@@ -156,18 +227,24 @@ def gen_sig(rng):
                 dflt = gen_default(rng, ann)
                 seen_default = True
         params.append({"name": nm, "kind": kind, "ann": ann, "how": how, "src": src, "dflt": dflt})
+        if form in CLASS_BODY_FORMS and nm.startswith("__") and not nm.endswith("__"):
+            params[-1]["src_name"] = nm                     # as written in the source
+            params[-1]["name"] = "_C" + nm                  # as the callable has it
     varpos = rng.random() < 0.15
     varkw = rng.random() < 0.15
+    # names of *args / **kwargs: the conventional ones unless an ordinary parameter has them
+    vp = next(x for x in ("args", "rest", "va_") if x not in names)
+    vk = next(x for x in ("kwargs", "kws", "vk_") if x not in names)
     out = []
     for p in params:
         if p["kind"] == "kwOnly" and not any(q["kind"] in ("kwOnly", "varPos") for q in out):
             if varpos:
-                out.append({"name": "rest", "kind": "varPos", "ann": None, "how": "absent", "src": None, "dflt": None})
+                out.append(_blank(vp, "varPos"))
         out.append(p)
     if varpos and not any(q["kind"] == "varPos" for q in out):
-        out.append({"name": "rest", "kind": "varPos", "ann": None, "how": "absent", "src": None, "dflt": None})
+        out.append(_blank(vp, "varPos"))
     if varkw:
-        out.append({"name": "kws", "kind": "varKw", "ann": None, "how": "absent", "src": None, "dflt": None})
+        out.append(_blank(vk, "varKw"))
     ret, rhow, rsrc = gen_ann(rng, plain)
     if form == "class" and rng.random() < 0.7:
         ret, rhow, rsrc = None, "nameless", "None"                    # the usual `def __init__(self, ...) -> None`
@@ -179,9 +256,9 @@ def gen_sig(rng):
 
 
 def gen_entry(rng):
-    schema = [[k, rng.choice(BUILTIN_TYS + ["Any", "Any", "Foo"])] for k in rng.sample(PARAMS, rng.randint(0, 3))]
+    schema = [[k, rng.choice(ALL_TYS + ["Any", "Any", "Any", "Any", "Any", "Any", "Foo", "Foo", "latitude"])] for k in gen_names(rng, rng.randint(0, 3))]
     return {"op": "entry", "entrypoint": rng.choice(["pkg.mod.fn", "m.f", ""]), "schema": schema,
-            "out": rng.choice(BUILTIN_TYS + ["Any", "Any", "grib.mir"]), "env": rng.choice(ENVS)}
+            "out": rng.choice(ALL_TYS + ["Any", "Any", "Any", "Any", "Any", "Any", "grib.mir", "grib.mir", "Foo"]), "env": rng.choice(ENVS)}
 
 
 def _ann_src(p, key_how="how", key_src="src", key_ann="ann"):
@@ -209,7 +286,7 @@ def _params_src(ps, lead=None, no_default=()):
             continue
         if p["kind"] == "kwOnly" and not any(q["kind"] in ("kwOnly", "varPos") for q in ps[:i]):
             parts.append("*")
-        s = p["name"]
+        s = p.get("src_name", p["name"])
         a = _ann_src(p)
         if a is not None:
             s += ": " + a
@@ -221,30 +298,45 @@ def _params_src(ps, lead=None, no_default=()):
     return ", ".join(parts)
 
 
+def _lead(ps, want):
+    """name of the receiver parameter of a method: the conventional one unless an ordinary parameter has it"""
+    names = {p["name"] for p in ps}
+    return next(x for x in (want, "this_", "recv_") if x not in names)
+
+
 def sig_source(op):
     """Python source that leaves the callable in the name `f` (the effective signature of `f` is op['params'] / op['ret'])."""
     form = op.get("form", "def")
     ps = op["params"]
     r = _ann_src(op, "rhow", "rsrc", "ret")
     ret = "" if r is None else " -> " + r
-    head = "from typing import Optional, Union, List\nimport functools\n"
-    if form == "builtin":
-        return "f = " + BUILTIN_CALLABLES[op["builtin"]][0] + "\n"
+    head = "from typing import Optional, Union, List, Set, Dict, Tuple, Any\nimport functools\n"
+    if form in ("builtin", "nosig"):
+        return "f = " + (BUILTIN_CALLABLES[op["builtin"]][0] if form == "builtin" else op["builtin"]) + "\n"
     if form == "lambda":
         return "f = lambda " + _params_src(ps) + ": None\n"
     if form == "method":
-        return head + "class C:\n    def f(" + _params_src(ps, "self") + ")" + ret + ":\n        return None\nf = C().f\n"
+        return head + "class C:\n    def f(" + _params_src(ps, _lead(ps, "self")) + ")" + ret + ":\n        return None\nf = C().f\n"
+    if form == "unbound":           # the plain function `C.f`: its receiver is one of op['params']
+        return head + "class C:\n    def f(" + _params_src(ps) + ")" + ret + ":\n        return None\nf = C.f\n"
+    if form == "instance":          # an object with __call__
+        return head + "class C:\n    def __call__(" + _params_src(ps, _lead(ps, "self")) + ")" + ret + ":\n        return None\nf = C()\n"
     if form == "classmethod":
-        return head + "class C:\n    @classmethod\n    def f(" + _params_src(ps, "cls") + ")" + ret + ":\n        return None\nf = C.f\n"
+        return head + "class C:\n    @classmethod\n    def f(" + _params_src(ps, _lead(ps, "cls")) + ")" + ret + ":\n        return None\nf = C.f\n"
     if form == "staticmethod":
         return head + "class C:\n    @staticmethod\n    def f(" + _params_src(ps) + ")" + ret + ":\n        return None\nf = C.f\n"
     if form == "class":
-        return head + "class C:\n    def __init__(" + _params_src(ps, "self") + ")" + ret + ":\n        pass\nf = C\n"
+        return head + "class C:\n    def __init__(" + _params_src(ps, _lead(ps, "self")) + ")" + ret + ":\n        pass\nf = C\n"
     if form == "partial":
         bound = op.get("bound_kw", [])
         kws = "".join(", %s=%s" % (p["name"], p["dflt"]["r"]) for p in ps if p["name"] in bound)
-        return (head + "def g(" + _params_src(ps, "p0_", no_default=bound) + ")" + ret + ":\n    return None\n"
-                "f = functools.partial(g, 11" + kws + ")\n")
+        return (head + "def g_(" + _params_src(ps, "p0_", no_default=bound) + ")" + ret + ":\n    return None\n"
+                "f = functools.partial(g_, 11" + kws + ")\n")
+    if form == "wrapped":           # a decorated function: inspect.signature follows __wrapped__
+        return (head + "def g_(" + _params_src(ps) + ")" + ret + ":\n    return None\n"
+                "@functools.wraps(g_)\ndef f(*a_, **k_):\n    return g_(*a_, **k_)\n")
+    if form == "async":
+        return head + "async def f(" + _params_src(ps) + ")" + ret + ":\n    return None\n"
     return head + "def f(" + _params_src(ps) + ")" + ret + ":\n    return None\n"
 
 
@@ -307,6 +399,22 @@ def gen_program(rng, nops):
 
     def new_task():
         s = gen_entry(rng) if rng.random() < 0.08 else gen_sig(rng)
+        # declared types that MEET: the return class of a new task is (40%) the class of a parameter of an earlier task or a
+        # class near it (bytes/bytearray, bool/int, set/frozenset, ...), and (30%) one of its parameters gets the class of an
+        # earlier task's return or a class near that - so that keyword edges between two different declared classes are common
+        if s["op"] == "task" and s.get("form") not in ("builtin", "nosig", "lambda"):
+            near = lambda t: NEAR_TYS.get(t, t) if rng.random() < 0.5 else t
+            pool = [p["ann"] for sg in sigs.values() if sg["op"] == "task" for p in kw_params(sg) if p.get("how") == "class"]
+            if pool and rng.random() < 0.4:
+                t = near(rng.choice(pool))
+                s["ret"], s["rhow"], s["rsrc"] = t, "class", t
+            rets = [sg["ret"] for sg in sigs.values() if sg["op"] == "task" and sg.get("rhow") == "class"]
+            mine = [p for p in kw_params(s) if p["name"] not in s.get("bound_kw", [])]
+            if rets and mine and rng.random() < 0.3:
+                p = rng.choice(mine)
+                t = near(rng.choice(rets))
+                if p["dflt"] is None or p["kind"] == "kwOnly":
+                    p["ann"], p["how"], p["src"] = t, "class", t
         add(s, "task", s)
 
     for _ in range(rng.randint(2, 3)):
@@ -321,6 +429,33 @@ def gen_program(rng, nops):
         bnodes[i] = dict(bnodes[i - 1])
         bnodes[i][name] = t
         bedges[i] = list(bedges[i - 1])
+    if rng.random() < 0.3:
+        # a keyword edge between two DECLARED CLASSES, drawn from the whole 14 x 14 matrix (half of them from the near pairs:
+        # bytes/bytearray, bool/int, set/frozenset, ...): the issubclass verdict of build is exercised pair by pair
+        all14 = BUILTIN_TYS + MORE_TYS
+        t1 = rng.choice(all14)
+        t2 = NEAR_TYS[t1] if rng.random() < 0.5 else rng.choice(all14)
+        if rng.random() < 0.5:
+            t1, t2 = t2, t1
+        pn = rng.choice(PARAMS + SPECIAL_PARAMS)
+        ta = {"op": "task", "form": "def", "params": [], "ret": t1, "rhow": "class", "rsrc": t1, "env": None}
+        tb = {"op": "task", "form": "def", "params": [{"name": pn, "kind": rng.choice(["posOrKw", "kwOnly"]), "ann": t2, "how": "class", "src": t2, "dflt": None}],
+              "ret": None, "rhow": "absent", "rsrc": None, "env": None}
+        ia, ib = add(ta, "task", ta), add(tb, "task", tb)
+        b = max(bnodes)
+        for name, t in (("p", ia), ("q", ib)):
+            i = add({"op": "node", "b": b, "name": name, "t": t}, "builder")
+            bnodes[i] = dict(bnodes[b], **{name: t})
+            bedges[i] = list(bedges[b])
+            b = i
+        e = {"op": "edge", "b": b, "src": "p", "sink": "q", "into": pn}
+        if rng.random() < 0.5:
+            e["frum"] = "0"
+        i = add(e, "builder")
+        bnodes[i] = dict(bnodes[b])
+        bedges[i] = bedges[b] + [("q", pn)]
+        if rng.random() < 0.5:
+            add({"op": "build", "b": i}, "result")
     while len(ops) < nops:
         tasks = [i for i, k in enumerate(kinds) if k == "task"]
         blds = [i for i, k in enumerate(kinds) if k == "builder"]
@@ -330,7 +465,7 @@ def gen_program(rng, nops):
         elif r < 0.28:
             t = rng.choice(tasks)
             sig = sigs[t]
-            args = [mkval(rng.choice(VALUE_POOL)) for _ in range(rng.choice([0, 0, 1, 1, 1, 2, 3, 5, 7]))]
+            args = [mkval(rng.choice(ALL_VALUES)) for _ in range(rng.choice([0, 0, 1, 1, 1, 2, 3, 5, 7]))]
             kwargs = []
             cand = kw_params(sig)
             for _ in range(rng.choice([0, 1, 1, 2])):
@@ -340,9 +475,9 @@ def gen_program(rng, nops):
                     if p["ann"] in BY_TYPE and rng.random() < 0.75:
                         v = mkval(rng.choice(BY_TYPE[p["ann"]]))
                     else:
-                        v = mkval(rng.choice(VALUE_POOL))
+                        v = mkval(rng.choice(ALL_VALUES))
                 else:
-                    k, v = "zz", mkval(rng.choice(VALUE_POOL))
+                    k, v = rng.choice(["zz", "zz", "self", "args"]), mkval(rng.choice(ALL_VALUES))
                 if k not in [x[0] for x in kwargs]:
                     kwargs.append([k, v])
             add({"op": "values", "t": t, "args": args, "kwargs": kwargs}, "task", sig)
@@ -363,17 +498,22 @@ def gen_program(rng, nops):
             have = sorted(bnodes[b])
             pick = lambda: rng.choice(have) if have and rng.random() < 0.9 else rng.choice(NAMES + ["nope"])
             src, sink = pick(), pick()
+            typed_src = [n for n in have if sigs[bnodes[b][n]].get("rhow") == "class"]
+            if typed_src and rng.random() < 0.4:
+                src = rng.choice(typed_src)                    # a source with a declared return class
             x = rng.random()
             if bedges[b] and x < 0.14:
                 sink, into = rng.choice(bedges[b])             # an input that an edge of this builder already feeds
             elif x < 0.28:
                 into = rng.choice([0, 0, 1, 2, -1, 5])
             elif sink in bnodes[b] and kw_params(sigs[bnodes[b][sink]]) and x < 0.9:
-                into = rng.choice(kw_params(sigs[bnodes[b][sink]]))["name"]
+                cand = kw_params(sigs[bnodes[b][sink]])
+                typed = [p for p in cand if p.get("how") == "class"]
+                into = rng.choice(typed if typed and rng.random() < 0.5 else cand)["name"]
             elif sink in bnodes[b] and x < 0.8:
                 into = 0                                   # sink without keyword-capable parameters
             else:
-                into = rng.choice(PARAMS + ["nope"])
+                into = rng.choice(PARAMS + ["nope", "self", "cls", "args"])
             op = {"op": "edge", "b": b, "src": src, "sink": sink, "into": into}
             y = rng.random()
             if y < 0.45:
@@ -395,6 +535,8 @@ def gen_program(rng, nops):
 
 def strip(op):
     """The op as sent to the Lean driver (generator bookkeeping removed)."""
+    if op["op"] == "task" and op.get("form") == "nosig":
+        return {"op": "nosig"}
     if op["op"] == "task":
         def how(h):
             return "nameless" if h == "nameless" else ("absent" if h == "absent" else "named")
@@ -528,7 +670,14 @@ def real_op(store, op):
     try:
         if kind == "task":
             f = make_callable(op)
-            if not effective_signature_ok(f, op):
+            if op.get("form") == "nosig":
+                import inspect
+                try:
+                    inspect.signature(f)
+                    return {"kind": "invalid", "why": "harness: inspect has a signature for " + op["builtin"]}
+                except ValueError:
+                    pass
+            elif not effective_signature_ok(f, op):
                 return {"kind": "invalid", "why": "harness: the generated callable does not have the described signature"}
             env = op.get("env")
             return TaskBuilder.from_callable(f) if env is None else TaskBuilder.from_callable(f, environment=list(env))
@@ -612,10 +761,32 @@ class Oracle:
         self.exp = []        # per object: expected description
         self.first = []      # per object: snapshot when created
         self.fp = []         # per object: complete fingerprint when created
+        self.stats = {}      # what the oracle judged / exempted (printed with the input distribution)
 
-    def _exotic(self, desc):
-        tys = [ty for t in desc["nodes"].values() for ty in list(self.exp[t]["in"].values()) + list(self.exp[t]["out"].values())]
-        return any(ty != "Any" and _cls(ty) is None for ty in tys)
+    def _stat(self, k):
+        self.stats[k] = self.stats.get(k, 0) + 1
+
+    def _touched_unknown(self, desc):
+        """The ITEMS of a description (keyword statics, keyword edges) whose judgement needs a declared type that is no
+        builtin class: `["staticType", node, k]` / `["incompatible", edge]`. Only these are outside the property's quantifier
+        ("builtin or absent annotations"); everything else in the same description is judged. A non-builtin type that no
+        bound value and no edge touches exempts nothing."""
+        out = []
+        for n, t in desc["nodes"].items():
+            e = self.exp[t]
+            for k in e["kw"]:
+                ty = e["in"].get(k)
+                if ty is not None and ty != "Any" and _cls(ty) is None:
+                    out.append(["staticType", n, k])
+        for ed in self._edges_desc(desc):
+            (src, frum, sink, kw, ps) = ed
+            st, kt = desc["nodes"].get(src), desc["nodes"].get(sink)
+            if st is None or kt is None or kw is None:
+                continue
+            ot, it = self.exp[st]["out"].get(frum), self.exp[kt]["in"].get(kw)
+            if ot is not None and it is not None and compatible(ot, it) is None:
+                out.append(["incompatible", ed])
+        return out
 
     def check(self, store, op, obj):
         """Returns (kind, extra, text) of the first failure of this step, or None."""
@@ -630,7 +801,13 @@ class Oracle:
                    "out": {"0": schema_type(op.get("rhow", "class"), op["ret"])},
                    "kw": {p["name"]: (p["dflt"]["ty"], p["dflt"]["r"]) for p in kwp if p["dflt"]},
                    "ps": {}, "entry": "", "env": list(op.get("env") or []), "func": True}
-            if crashed:
+            if op.get("form") == "nosig":
+                # no signature to describe: outside the quantifier; the only thing demanded is that the refusal is inspect's
+                exp = None
+                if not (crashed and obj["err"] == "ValueError" and obj.get("where") == "from_callable"):
+                    fail = ("from-callable-nosig", {"got": obj.get("err") if crashed else "returned"},
+                            f"from_callable({op['builtin']}) (inspect has no signature for it): expected inspect's ValueError, got {obj if crashed else 'a task'}")
+            elif crashed:
                 fail = ("from-callable-crash", {"exc": obj["err"], "form": op.get("form", "def")},
                         f"from_callable on `{sig_source(op).strip().replace(chr(10), '; ')[-200:]}` raised {obj['err']}: {obj['msg']}")
         elif kind == "entry":
@@ -732,21 +909,19 @@ class Oracle:
         return None
 
     def _expected_problems(self, desc):
-        """The problems the property text implies for a description (set of canonical problems), or None when a declared
-        type is not a builtin class (no opinion). Edge by edge: source task / source output / sink task / sink parameter
+        """The problems the property text implies for a description (set of canonical problems); items that need a declared
+        type that is no builtin class are left out (no opinion on them: _touched_unknown). Edge by edge: source task / source output / sink task / sink parameter
         must exist, declared types must be compatible; a sink input may be fed by one edge only; a keyword static of a
         declared parameter must be an instance of the declared class."""
-        if self._exotic(desc):
-            return None
         out = set()
         for n, t in desc["nodes"].items():
             e = self.exp[t]
             for k, (vty, vr) in e["kw"].items():
                 ty = e["in"].get(k)
-                if ty is None or ty == "Any":
-                    continue
+                if ty is None or ty == "Any" or _cls(ty) is None:
+                    continue          # undeclared / not a builtin class: no opinion on THIS static (see _touched_unknown)
                 try:
-                    v = eval(vr, {"__builtins__": {}}, {})
+                    v = eval(vr, dict(_VAL_NS), {})
                 except Exception:
                     return None
                 if not isinstance(v, _cls(ty)):
@@ -770,6 +945,10 @@ class Oracle:
                     out.add(json.dumps(["toNoParam", kw]))
                 elif ot is not None and compatible(ot, it) is False:
                     out.add(json.dumps(["incompatible", [src, frum, sink, kw, ps]]))
+                if it is not None and ot is not None and ot != it and _cls(ot) is not None and _cls(it) is not None:
+                    self._stat("oracle:keyword-edge-between-two-different-classes:" + ("compatible" if compatible(ot, it) else "incompatible"))
+                    if ot in MORE_TYS or it in MORE_TYS:
+                        self._stat("oracle:keyword-edge-between-two-different-classes,one-beyond-the-nine")
             key = (sink, "kw", kw) if kw is not None else (sink, "ps", ps)
             if key in fed:
                 out.add(json.dumps(["fedTwice", [src, frum, sink, kw, ps]]))
@@ -779,9 +958,15 @@ class Oracle:
     def _check_build(self, desc, obj, crashed):
         from cascade.low.core import JobInstance
         from cascade.low.func import Either
+        touched = self._touched_unknown(desc)
+        nonbuiltin = any(ty != "Any" and _cls(ty) is None for t in desc["nodes"].values()
+                         for ty in list(self.exp[t]["in"].values()) + list(self.exp[t]["out"].values()))
+        self._stat("oracle:build-judged-in-full" + ("-though-some-declared-type-is-no-builtin-class" if nonbuiltin else "") if not touched
+                   else "oracle:build-with-%s-exempt-items" % ("1" if len(touched) == 1 else "2+"))
         if crashed:
-            if self._exotic(desc):
-                return None     # non-evaluable annotation: outside the property's quantifier
+            if touched and obj["err"] == "NameError":
+                self._stat("oracle:build-crash-exempt(NameError,item-needs-non-builtin-type)")
+                return None     # a bound value / an edge needs a declared type that is no builtin class: outside the quantifier
             return ("build-crash", {"exc": obj["err"], "where": obj.get("where")}, f"build() raised {obj['err']} in {obj.get('where')}: {obj['msg']}")
         if not isinstance(obj, Either):
             return ("build-result-shape", {}, f"build() returned {type(obj).__name__}")
@@ -800,6 +985,14 @@ class Oracle:
                     return p
                 got = {json.dumps(norm(p)) for p in map(parse_problem, obj.e)}
                 want = {json.dumps(norm(json.loads(w))) for w in want}
+                # no opinion (either way) on the items that need a non-builtin declared type - and on nothing else
+                for it in touched:
+                    if it[0] == "staticType":
+                        got = {g for g in got if json.loads(g)[:3] != it}
+                    else:
+                        got.discard(json.dumps(norm(["incompatible", it[1]])))
+                if not want and not got:
+                    return None
                 if not want:
                     return ("rejected-well-formed-description", {"problem": sorted(json.loads(g)[0] for g in got)[0]},
                             f"every edge of the description is well formed, yet build() returned problems {obj.e}")
@@ -849,11 +1042,18 @@ class Oracle:
         return None
 
 
+LAST_STATS = {}
+LAST_FAILS = []
+
+
 def run_program(ops):
     """Run on the real code with the oracle. Returns (snapshots after each op [of the new object], per-step
     full-store snapshots comparison helper, first oracle failure or None)."""
+    global LAST_STATS, LAST_FAILS
     store = []
     orc = Oracle()
+    LAST_STATS = orc.stats
+    LAST_FAILS = []          # the first failure of every further kind (a wrong schema must not hide a wrong build verdict)
     fail = None
     stores = []
     for i, op in enumerate(ops):
@@ -862,6 +1062,8 @@ def run_program(ops):
         f = orc.check(store, op, obj)
         if f and fail is None:
             fail = (f[0], f[1], f[2], i)
+        elif f and _sig_of(f) != _sig_of(fail) and all(_sig_of(f) != _sig_of(g) for g in LAST_FAILS) and len(LAST_FAILS) < 4:
+            LAST_FAILS.append((f[0], f[1], f[2], i))
         stores.append([snap(o) for o in store])
     return stores, fail
 
@@ -913,8 +1115,17 @@ def _sig_of(fail):
     return d
 
 
+def _failure_like(cand, fail):
+    """the failure of the same kind (first or later one) that `cand` shows, or None"""
+    f = run_program(cand)[1]
+    for g in ([f] if f else []) + list(LAST_FAILS):
+        if _sig_of(g) == _sig_of(fail):
+            return g
+    return None
+
+
 def _same_failure(fail):
-    return lambda cand: (lambda f: f is not None and _sig_of(f) == _sig_of(fail))(run_program(cand)[1])
+    return lambda cand: _failure_like(cand, fail) is not None
 
 
 # ----------------------------------------------------------------------------- correspondence
@@ -958,9 +1169,19 @@ def _account(ctx, ops, stores):
             ctx.count("callable:" + o.get("form", "def"))
             ctx.count("environment:" + ("omitted" if o.get("env") is None else "empty" if not o["env"] else "given"))
             ctx.count("return-annotation:" + o.get("rhow", "class"))
+            np_ = len(o["params"])
+            ctx.count("callable-params:" + ("0" if np_ == 0 else "1-4" if np_ <= 4 else "5-8" if np_ <= 8 else ">8"))
             for p in o["params"]:
                 ctx.count("param:" + p["kind"])
                 ctx.count("annotation:" + p["how"])
+                if p["name"] in ("self", "cls"):
+                    ctx.count("param-name:self/cls" + ("(in schema)" if p["kind"] in ("posOrKw", "kwOnly") else "(positional-only)"))
+                elif "src_name" in p:
+                    ctx.count("param-name:mangled(__p in a class body -> _C__p)")
+                elif p["name"] in SPECIAL_PARAMS and p["kind"] not in ("varPos", "varKw"):
+                    ctx.count("param-name:" + ("non-ascii" if not p["name"].isascii() else "args/kwargs/keyword-like/underscore"))
+                if p.get("ann") in MORE_TYS:
+                    ctx.count("annotation-class-beyond-the-nine:" + p["ann"])
                 if p["dflt"]:
                     ctx.count("param-with-default")
         if o["op"] == "values":
@@ -997,15 +1218,17 @@ def _run_cases(ctx, programs, compare=True):
     real = []
     for ops in programs:
         stores, fail = run_program(ops)
+        for k_, v_ in LAST_STATS.items():
+            ctx.count(k_, v_)
         real.append(stores)
         nt = _account(ctx, ops, stores)
         ctx.case({"ops": [strip(o) for o in ops[:10]], "n_ops": len(ops)}, nontrivial=nt)
-        if fail:
+        for fail in ([fail] if fail else []) + list(LAST_FAILS if fail else []):
             seen = ctx.__dict__.setdefault("_c19_shrunk", {})
             key = json.dumps(_sig_of(fail), sort_keys=True)
             if key not in seen:                         # shrink the first program of every kind of failure only
                 small = shrink(ops, _same_failure(fail))
-                seen[key] = (small, (run_program(small)[1] or fail)[2])
+                seen[key] = (small, (_failure_like(small, fail) or fail)[2])
                 ctx.violation(_sig_of(fail), {"ops": small}, seen[key][1])
             else:
                 ctx.violation(_sig_of(fail), {"ops": ops}, fail[2])
@@ -1052,5 +1275,5 @@ def replay(payload):
     stores, fail = run_program(ops)
     for i, o in enumerate(ops):
         print(f"#{i}", json.dumps(strip(o)), "->", json.dumps(_strip_msg(stores[i][i]))[:300])
-    print("oracle:", fail)
+    print("oracle:", fail, *LAST_FAILS)
     return 1 if fail else 0
